@@ -308,15 +308,27 @@ pub fn classify(sys: &Sys) -> Result<(Band, SlackCert), String> {
         }
         return Ok((band, SlackCert { t: c.t, x: c.x, y, ycap: c.ycap }));
     }
-    let cert = max_slack(sys, &Q::one())?;
+    // "Non-empty by a margin" is only asserted for regions that have a thick point at a moderate
+    // distance (|x_i| <= 1e5): a region that is thick only 1e15 away from the origin (nearly parallel
+    // hyperplanes of float-regime trees) is beyond what a floating-point LP solver can be expected to
+    // resolve and counts as thin. "Empty by a margin" is judged without the box.
     let band = band_q();
-    let b = if cert.t.ge(&band) {
-        Band::Thick
-    } else if cert.t.le(&band.neg()) {
-        Band::Empty
-    } else {
-        Band::Thin
-    };
+    let mut boxed = sys.clone();
+    let r = Q::int(100_000);
+    for j in 0..sys.n {
+        for sg in [1i64, -1] {
+            let mut row = vec![Q::zero(); sys.n];
+            row[j] = Q::int(sg);
+            boxed.push(row, r.clone());
+        }
+    }
+    let cb = max_slack(&boxed, &Q::one())?;
+    if cb.t.ge(&band) {
+        let y = cb.y[..sys.m()].to_vec();
+        return Ok((Band::Thick, SlackCert { t: cb.t, x: cb.x, y, ycap: cb.ycap }));
+    }
+    let cert = max_slack(sys, &Q::one())?;
+    let b = if cert.t.le(&band.neg()) { Band::Empty } else { Band::Thin };
     Ok((b, cert))
 }
 
